@@ -13,6 +13,9 @@ KId == 1  KNum == 2  KComma == 3  KComment == 4  KList == 10
 
 CandSyms == {"a", "b", "1", ",", "cm", "Na", "Nab"}
 GoalSyms == {"a", "b", "1", ",", "$A", "$$A", "$B", "$_", "$$$", "$$$A", "Na", "N$A", "N$$$"}
+\* the universe of the repeated-variable model (MC_C03 SpecRep): occurrences of A at both levels
+RepGoalSyms == {"a", ",", "$A", "$$$A", "N$A", "N$$$A"}
+RepCandSyms == {"a", "b", ",", "cm", "Na", "Nab"}
 
 CLeaf(kid, nm, cm, t) == [kid |-> kid, nm |-> nm, cm |-> cm, t |-> t, kids |-> <<>>]
 CandTerm(sym) ==
@@ -45,6 +48,7 @@ GoalTerm(sym) ==
       [] sym = "$$$A" -> GM("multicap", "A", FALSE)
       [] sym = "Na"   -> GI(<<GT(KId, TRUE, "a")>>)
       [] sym = "N$A"  -> GI(<<GM("capture", "A", TRUE)>>)
+      [] sym = "N$$$A" -> GI(<<GM("multicap", "A", FALSE)>>)
       [] OTHER        -> GI(<<GM("multiple", "", FALSE)>>)
 
 \* ---- two-level table builder ---------------------------------------------
